@@ -346,6 +346,19 @@ func c18Case(c *core.Ctx, id string) {
 				return
 			}
 		}
+		// 'evaluating' in a dry run means "would run": the real build of the same state must
+		// report evaluating for exactly the same labels (when it succeeds)
+		if o.Dry && !twice && res.RunErr == "" {
+			dryEval := evaluatingSet(res.Events)
+			_, real, _ := e.Build(target, pj.BuildOpt{Always: o.Always})
+			if real.RunErr == "" && real.LoadErr == "" {
+				c.Count("dry_runs_compared_with_the_real_build", 1)
+				if realEval := evaluatingSet(real.Events); fmt.Sprint(dryEval) != fmt.Sprint(realEval) {
+					c.Violation(id, "", "event-protocol-violated", map[string]any{"problems": []string{fmt.Sprintf("the dry run reported evaluating for %v, the real build of the same state for %v", dryEval, realEval)}, "variant": variant, "target": target, "history": e.Script()})
+					return
+				}
+			}
+		}
 		// the second public channel: run(callback=...)
 		if b == nb-1 {
 			if probs, kinds := c18Callback(s.Root, target, e.P.Args, o.Failing, e.S); len(probs) > 0 {
